@@ -123,12 +123,17 @@ class RateLimiter(BaseRateLimiter):
         return False
 
     def cleanup(self):
+        # the longest window of any per-address rule: the "ip" section and the
+        # sections of specific addresses (their state is kept per address too)
         max_interval = 0
-        if not self.rules.get("ip"):
+        for section, commands in self.rules.items():
+            if section == "global":
+                continue
+            for rules in commands.values():
+                rule_res = max(rules)[0]
+                max_interval = max(rule_res, max_interval)
+        if not max_interval:
             return
-        for rules in self.rules["ip"].values():
-            rule_res = max(rules)[0]
-            max_interval = max(rule_res, max_interval)
 
         now = self._timestamp()
         to_del = []
